@@ -248,6 +248,27 @@ def judge_pair(inst):
     return viols, bool(per_block and tot["switches"] > 0)
 
 
+def judge_pairdiff(inst):
+    """two diploid files that are heterozygous over DIFFERENT allele pairs of a two-ALT record: only the number of
+    different genotypes is judged (the other diploid numbers are not defined across differing genotypes)"""
+    p0, p1 = inst["p"]
+    d = _dir()
+    paths = [os.path.join(d, "d0.vcf"), os.path.join(d, "d1.vcf")]
+    multi = tuple(i for i in range(len(p0)) if any("2" in k[1:] for k in (p0[i], p1[i])))
+    build_vcf(paths[0], [p0], 0, multi_idx=multi)
+    build_vcf(paths[1], [p1], 1, multi_idx=multi)
+    try:
+        res = run_tool(paths)
+    except Exception as e:  # noqa
+        return [{"clause": "error", "signature": "c11:error:multi-allelic", "detail": f"run_compare failed: {type(e).__name__}: {e} (files {p0} vs {p1})", "instance": inst}], False
+    row = res["pair"][0]
+    want = sum(1 for a, b in zip(p0, p1) if set(a[1:]) != set(b[1:]))
+    viols = []
+    if int(row["blockwise_diff_genotypes"]) != want:
+        viols.append({"clause": "pairwise:blockwise_diff_genotypes", "signature": "c11:pairwise:blockwise_diff_genotypes:multi-allelic", "detail": f"blockwise_diff_genotypes = {row['blockwise_diff_genotypes']}, the files differ in the genotype of {want} common variant(s) (files {p0} vs {p1})", "instance": inst})
+    return viols, want > 0
+
+
 def judge_invariance(inst):
     """re-ordering the haplotypes of one phase set in one file changes nothing"""
     p0, p1 = inst["p"]
@@ -633,6 +654,19 @@ def space(tier):
                     continue
                 for b1 in itertools.product((0, 1), repeat=n):
                     yield {"kind": "pair", "p": [pat(b0), pat(b1)]}
+    # the same record, the two files heterozygous over different allele pairs
+    pairs_ = ["01", "10", "12", "21", "02", "20"]
+    for n in (3,):
+        for mpos in range(n):
+            for g0, g1 in itertools.product(pairs_, repeat=2):
+                if set(g0) == set(g1):
+                    continue
+                for b1 in itertools.product((0, 1), repeat=n - 1):
+                    rest0 = ["A01"] * (n - 1)
+                    rest1 = ["A01" if not bit else "A10" for bit in b1]
+                    p0 = rest0[:mpos] + ["A" + g0] + rest0[mpos:]
+                    p1 = rest1[:mpos] + ["A" + g1] + rest1[mpos:]
+                    yield {"kind": "pairdiff", "p": [p0, p1]}
     # label invariance, explicitly
     inv = [s for s in itertools.product(KINDS[1:], repeat=3) if canonical(s)]
     for p0 in inv:
@@ -724,6 +758,8 @@ def run_one(inst):
         viols, nt = judge_multi(inst)
     elif k == "gen":
         viols, nt = judge_gen(inst)
+    elif k == "pairdiff":
+        viols, nt = judge_pairdiff(inst)
     elif k == "poly2":
         viols, nt = judge_poly2(inst)
     elif k == "polyfn":
